@@ -34,6 +34,8 @@ def judge(acc, spec, env, recs, hang):
     dev = first_deviation(env, spec)
     wit = dict(client=spec.kind, request=spec.request, retries=spec.retries, roe=spec.roe, roi=spec.roi, backoff=spec.backoff,
                choices=list(env.choices), labels=['%s' % lab for lab in env.labels])
+    if spec.history:
+        wit['history'] = [h if isinstance(h, str) else list(h) for h in spec.history]
 
     def bad(what, msg):
         acc.violation('C13/%s/%s/%s/%s' % (spec.kind, cfgc, what, dev), wit, msg, '%s/%s' % (spec.kind, cfgc))
@@ -115,6 +117,13 @@ def shard(args):
                 for backoff in ((0.3,) if tier == 'quick' and retries in (1, 2) else (0.3, 0.05)):
                     spec = clientsim.Spec(kind, request, retries=retries, retry_on_empty=roe, retry_on_invalid=roi, backoff=backoff)
                     explore_cfg(acc, spec, bound if retries < 3 or tier == 'quick' else 2)
+        # ... and after an earlier, answered transaction on the same client (what a healthy exchange leaves behind
+        # must not be taken for the outcome of a later, failed one)
+        if retries in (0, 2):
+            for both in (False, True):
+                spec = clientsim.Spec(kind, request, retries=retries, retry_on_empty=both, retry_on_invalid=both, backoff=0.3,
+                                      history=('write-single',))
+                explore_cfg(acc, spec, bound if tier == 'quick' else 2)
         if retries:
             retry_contract(acc, kind, request, retries, 'empty')
             retry_contract(acc, kind, request, retries, 'invalid')
@@ -123,8 +132,8 @@ def shard(args):
 
 
 def run(tier, seed):
-    reqs = REQS if tier == 'quick' else REQS + ['read-write-registers', 'write-coils', 'write-registers', 'device-information']
-    shards = [(k, r, tier) for k in clients.KINDS for r in reqs]
+    reqs = REQS + ['device-information'] if tier == 'quick' else REQS + ['read-write-registers', 'write-coils', 'write-registers', 'device-information']
+    shards = [(k, r, tier) for k in clients.KINDS for r in reqs if r != 'device-information' or tier != 'quick' or 'rtu' in k]
     acc = par.run_shards(shard, shards)
     return dict(acc=acc, level=LEVEL,
                 coverage=dict(
@@ -144,7 +153,8 @@ def replay(w):
         retry_contract(acc, w['client'], w['request'], w['retries'], w['which'])
         vs = [v for v in acc.violations if v['witness'] == w]
         return bool(vs), '\n'.join(v['msg'] for v in vs) or 'no violation'
-    spec = clientsim.Spec(w['client'], w['request'], retries=w['retries'], retry_on_empty=w['roe'], retry_on_invalid=w['roi'], backoff=w['backoff'])
+    spec = clientsim.Spec(w['client'], w['request'], retries=w['retries'], retry_on_empty=w['roe'], retry_on_invalid=w['roi'], backoff=w['backoff'],
+                          history=tuple(h if isinstance(h, str) else tuple(h) for h in w.get('history', ())))
     env = choice.Env(w['choices'])
     try:
         recs, hang = clientsim.Sim(env, spec).run(), False
